@@ -11,6 +11,7 @@ import copy
 import json
 import random
 
+from sim.runner import H
 from sim import child, gen, progtree
 
 ID = 'C17'
@@ -369,7 +370,7 @@ def explore(subseed, cfg):
               tuple(c.get('sched', {}).get('spell', [])), tuple(c.get('sched', {}).get('order', []) or []),
               c.get('kind'))
         if nfiles > 1:
-            out['distinct'].add(hash(sh) & 0xFFFFFFFFFFFF)
+            out['distinct'].add(H(sh) & 0xFFFFFFFFFFFF)
 
     base = check_case(case)
     account(base, case)
